@@ -286,6 +286,73 @@ def t_inert(led, rid, ctx, res):
     led.floor(rid, "posting transitions from inconsistent states", n, 10)
 
 
+REJECT = ("Conflict", "Infeasible", "InfeasibleUnderAssumptions")
+
+
+def t_guards(led, rid, ctx, res):
+    """ENTRY-GUARD: add_clause and add_propagator of the engine test the life-cycle state before
+    anything else and leave at once in every inconsistent state; the set of states a guard rejects is
+    computed by interpreting the predicate's MIR in each state"""
+    from ..flow import edge_facts, peel
+    lib = ctx.lib
+    it = res[0]
+    STATES = ("Ready", "Solving", "ContainsSolution", "Conflict", "Infeasible", "InfeasibleUnderAssumptions",
+              "Timeout")
+    n = 0
+    for name in ("add_clause", "add_propagator"):
+        f = lib.method("ConstraintSatisfactionSolver", name)
+        cfg = f.cfg
+        preds = [c for c in f.calls if (c.self_ty or "").endswith("CSPSolverState") and
+                 (c.name.startswith("is_") or c.name.startswith("no_") or c.name.startswith("has_"))]
+        def mutating(c):
+            g = lib.fns.get(c.resolved or c.defn or "")
+            if g is None:
+                return bool(c.trait)
+            return bool(g.args) and g.args[0]["ty"].startswith("&mut")
+        others = [c for c in f.calls if c not in preds and not c.is_panic() and not c.exp and
+                  not any("assert" in m for m in (c.macros or [])) and (c.callee.get("local") or c.trait)
+                  and mutating(c)]
+        rejected = set()
+        used = []
+        for c in preds:
+            if not all(cfg.dominates(c.bb, o.bb) for o in others if o.bb != c.bb):
+                continue
+            g = lib.fns.get(c.resolved or c.defn)
+            if g is None:
+                continue
+            table = {}
+            for S in STATES:
+                out = {rt for st, rt in it.summary(g, (S, 0, 0), ())}
+                if len(out) == 1 and list(out)[0] is not None and list(out)[0][0] == "bool":
+                    table[S] = list(out)[0][1]
+            # which outcome leaves the function before any other call?
+            for bb in cfg.edges:
+                for fa in edge_facts(f, bb):
+                    if fa.kind != "bool":
+                        continue
+                    a = peel(fa.atom, calls=None)
+                    neg = False
+                    while a.k == "unop" and a.a == "Not":
+                        a = peel(a.b, calls=None)
+                        neg = not neg
+                    if not (a.k == "call" and a.a is c):
+                        continue
+                    truth = fa.val if not neg else (not fa.val)
+                    if cfg.reaches(fa.edge.node, cfg.returns, avoid=[o.bb for o in others], strict=False) and \
+                            not any(cfg.dominates(fa.edge.node, o.bb) for o in others):
+                        rejected |= {S for S, v in table.items() if v == bool(truth)}
+                        used.append(c.name)
+        n += 1
+        missing = [S for S in REJECT if S not in rejected]
+        led.check(not missing, rid, "%s:entry-guard" % name, f.span,
+                  "leaves at once in %s (guard %s)" % (sorted(rejected), used),
+                  "%s starts work in the state(s) %s: its entry guard (%s) only rejects %s. After a root "
+                  "conflict was recorded by an earlier call the function goes on to propagate / complete the "
+                  "proof with a stale conflict (unreachable!() in complete_proof for RootLevelConflict)"
+                  % (name, missing, used or "none", sorted(rejected)))
+    led.floor(rid, "entry guards", n, 2)
+
+
 def run(ctx, led):
     lib = ctx.lib
     try:
@@ -309,3 +376,4 @@ def run(ctx, led):
     run_rule(led, "T9", "no stale model: every solve overwrites the stored assumptions (shared with "
              "C05-A3)", shared.assumptions_overwritten, ctx)
     run_rule(led, "T10", "posting functions are inert while an inconsistency is recorded", t_inert, ctx, res)
+    run_rule(led, "T11", "ENTRY-GUARD: add_clause / add_propagator leave at once in every inconsistent state (guard truth tables interpreted from MIR)", t_guards, ctx, res)
